@@ -415,6 +415,31 @@ impl Ctx<'_> {
                 }
             }
         }
+        // long chains of one operator (sizes around the thresholds an implementation may special-case): still left to right
+        if cfg.shard == 0 {
+            for n in [3usize, 8, 16, 17, 63, 64, 65, 128, 129, 300] {
+                for (op, head, term) in [("+", 1e16f64, 1.0f64), ("*", 1e308, 0.5), ("+", 0.1, 0.2), ("-", 1e16, 1.0), ("/", 1e-300, 2.0)] {
+                    let mut want = head;
+                    for _ in 1..n {
+                        want = match op { "+" => want + term, "-" => want - term, "*" => want * term, _ => want / term };
+                    }
+                    for hidden in [false, true] {
+                        let leaf = |v: f64| { let l = crate::ast::float_text(v); if hidden { format!("hf({l})") } else { l } };
+                        let text = std::iter::once(leaf(head)).chain((1..n).map(|_| leaf(term))).collect::<Vec<_>>().join(&format!(" {op} "));
+                        self.rep.evaluations += 1;
+                        self.rep.count("long-float-chains");
+                        match real::parse_exec(&format!("{PRELUDE}{text}"), false) {
+                            Outcome::Value(Variable::Float(f)) if f.to_bits() == want.to_bits() => {}
+                            Outcome::Panic(p) if p.kind != PanicKind::Panic => self.rep.inconclusive("resource"),
+                            other => {
+                                let got = match &other { Outcome::Value(v) => canon(v), o => o.tag() };
+                                self.rep.violation(&format!("c14:grouping:long-chain:{op}:{}", if hidden { "runtime" } else { "folded" }), &format!("a chain of {n} operands joined by `{op}` ({} {op} {} {op} ..) gave {got}; evaluated left to right it gives {want:?}", crate::ast::float_text(head), crate::ast::float_text(term)), "c14", &text);
+                            }
+                        }
+                    }
+                }
+            }
+        }
         // string and array concatenation chains with a non-constant head / middle / tail: order of the pieces
         if cfg.shard == 0 {
             for pattern in 0..8u32 {
